@@ -114,6 +114,32 @@ pub fn cross_check(evs: &[(String, Ev)], suite: u16, used: Backend, mism: &mut V
 }
 
 impl KsDump {
+    /// claims for *calls*: the key of every MAC and AEAD seal and the input of every KEM key derivation, with
+    /// the recorded calls that produced it (at most `cap` of each kind per scenario)
+    fn call_claims(&self, evs: &[(String, Ev)], rows: &mut Vec<Value>, counts: &mut HashMap<&'static str, usize>, cap: usize) {
+        for (who, e) in evs {
+            let (kind, row) = match e {
+                Ev::Mac { key, .. } => ("call-mac", self.intern.ids.get(key).map(|k| json!({"k": "call-mac", "party": who, "key": self.prov(*k, 5)}))),
+                Ev::KemDerive { ikm, .. } => ("call-kem", self.intern.ids.get(ikm).map(|k| json!({"k": "call-kem", "party": who, "ikm": self.prov(*k, 8)}))),
+                Ev::AeadSeal { key, nonce, .. } => ("call-seal", self.intern.ids.get(key).map(|k| {
+                    // the nonce of a message is the derived nonce xor a 4-byte reuse guard: look it up by its tail
+                    let np = self.intern.ids.iter().find(|(b, id)| b.len() == nonce.len() && b.len() > 4 && b[4..] == nonce[4..] && self.facts.contains_key(id))
+                        .map(|(_, id)| self.prov(*id, 12)).unwrap_or(json!({"op": "none", "id": 0}));
+                    json!({"k": "call-seal", "party": who, "key": self.prov(*k, 12), "nonce": np})
+                })),
+                _ => continue,
+            };
+            let c = counts.entry(kind).or_insert(0);
+            if *c < cap {
+                // a key that no recorded call produced (random, or received through HPKE) carries no information
+                match row {
+                    Some(r) => { rows.push(r); *c += 1; }
+                    None => {}
+                }
+            }
+        }
+    }
+
     fn ingest(&mut self, evs: &[(String, Ev)]) {
         self.xchecked += cross_check(evs, self.suite, self.backend, &mut self.mismatches);
         for (_, e) in evs {
@@ -228,12 +254,14 @@ pub fn dump(out: &str, seed: u64, scenarios: usize) -> Result<Value, String> {
         let empty = d.intern.id(&[]);
         w.rec.set(true, true);
         let mut rows: Vec<Value> = vec![];
+        let call_counts: std::cell::RefCell<HashMap<&'static str, usize>> = Default::default();
         let mut members: Vec<String> = vec!["p1".into()];
         let mut pending_joiners: Vec<String> = names[1..].to_vec();
         // claims for one member in its current epoch
         let mut claim_member = |w: &mut World, d: &mut KsDump, rows: &mut Vec<Value>, p: &str, rng: &mut StdRng| {
             let evs = w.rec.take();
             d.ingest(&evs);
+            d.call_claims(&evs, rows, &mut *call_counts.borrow_mut(), 60);
             let g = w.parties[p].group.as_ref().unwrap().clone();
             let ctx_bytes = g.context().mls_encode_to_vec().unwrap();
             let ctx = d.intern.id(&ctx_bytes);
@@ -321,6 +349,7 @@ pub fn dump(out: &str, seed: u64, scenarios: usize) -> Result<Value, String> {
                     let m = g.encrypt_application_message(format!("m{i}").as_bytes(), vec![]).map_err(|e| format!("{e:?}"))?;
                     let evs = w.rec.take();
                     d.ingest(&evs);
+                    d.call_claims(&evs, &mut rows, &mut *call_counts.borrow_mut(), 60);
                     // the content encryption is the first AEAD seal with framing AAD
                     if let Some((key, nonce)) = evs.iter().find_map(|(_, e)| if let Ev::AeadSeal { key, nonce, aad, .. } = e { if !aad.is_empty() { Some((key.clone(), nonce.clone())) } else { None } } else { None }) {
                         let kid = d.intern.id(&key);
